@@ -13,7 +13,7 @@ SPEC = dict(
          "k-way splits (25 per stream, k<=7 quick; 1000 per stream, k<=13 thorough), thorough: every 3-way split of the 5 shortest streams "
          "and of the 4 streams with 2-/3-/4-byte characters; plus every 2-way split of the former defect witnesses, of two streams with unusual legal "
          "headers, of a stream preceded by a byte order mark (which must be ignored at the very start and only there) and of 21 streams with white "
-         "space after the closing tag (7 trailers x 3 streams; also bytewise and random k-way; the one-read run must itself deliver every item); "
+         "space after the closing tag (7 trailers x 3 streams; also bytewise and random k-way; the one-read run must itself deliver every item; PrefixOracle measured on them too); "
          "20 correspondence-only sequences with garbage / further stanzas / a second close after the closing tag. Each chunk travels "
          "through a real loopback TCP connection into XmppSocket (one read per chunk, verified), and the events of that read "
          "(signal + canonical element + buffered/cached lengths) are compared line by line with the Lean model fed the same bytes; "
@@ -38,8 +38,7 @@ SPEC = dict(
         "item is rejected (hypothesis of every framing theorem; satisfiable: examples in Props/C03.lean; measured on Qt)",
         "keep-alive (null element) notifications depend on the split by design and are excluded from the compared events",
         "streams covered by the theorems = (optional BOM,) header first, no leading white space, closing tag (if any) at the very end "
-        "(at most one LF after it), well-formed UTF-8; valid streams outside this (white space after the close) are exercised by the harness "
-        "and currently FAIL (open finding)",
+        "optionally followed by white space (since 109544b), well-formed UTF-8; not covered: white space in front of the header",
     ],
     level_text="What is proved is ARRIVAL INDEPENDENCE; what is recognised in a buffer is defined by the model of the code (two regular "
                "expressions + one whole-document DOM parse of the wrapped buffer: a buffer yields the nodes of the whole document or nothing "
@@ -48,14 +47,14 @@ SPEC = dict(
                "Theorems for every parser satisfying PrefixOracle, every stream and every chunking: text-level split independence "
                "(framing_split_independent_partial, framing_delivers_exactly_partial); stateful UTF-8 decoding is chunk independent for all byte "
                "lists; full byte-level property for the code as it is (framing_bytes_split_independent_partial: every split, including "
-               "inside multi-byte characters and inside a leading BOM, delivers exactly the stream's events). The four defects found "
-               "earlier (split inside a character, U+FEFF at read start, '>' in a header attribute, line break in the XML declaration) "
-               "are fixed in the repo (49994ec, 381fe43); their witnesses stay first in the corpus. Header matcher: stable under "
+               "inside multi-byte characters and inside a leading BOM, delivers exactly the stream's events). The five defects found "
+               "earlier (split inside a character, U+FEFF at read start, '>' in a header attribute, line break in the XML declaration, "
+               "white space after the closing tag) are fixed in the repo (49994ec, 381fe43, 109544b); their witnesses stay first in the corpus. Header matcher: stable under "
                "appended data, matches exactly one quote-aware open tag (theorems). Lean parser: completeness at item boundaries "
                "proved for a sub-language (leanParser_complete_at_boundary_partial).",
-    level_note="Open finding C03:bytes-after-stream-close: white space after </stream:stream> (other than one LF) makes delivery depend on "
-               "the read boundaries (one read: nothing delivered, ever); such streams do not satisfy PrefixOracle; refuted in Lean "
-               "(C03_defect_bytes_after_close), reproduced on the real class, fix diff provided, tolerant model variant prepared (one-line switch). "
+    level_note="White space after </stream:stream> was a defect (C03:bytes-after-stream-close: one read delivered nothing), fixed in repo "
+               "commit 109544b; the model uses the tolerant close detection, such streams now satisfy PrefixOracle (measured on Qt and on the "
+               "Lean parser for 21 trailer streams) and are covered by the _partial theorems. "
                "PrefixOracle stays a hypothesis of the framing theorems: for the Lean parser only its first half is proved (sub-language, "
                "no entities/double quotes/'>' in attribute values), the rejection half and the assembly are not; it is established per corpus "
                "stream by the proved-sound checkOracle (Lean parser) and measured on QDomDocument (S prefix_oracle_checks, 0 violations). "
